@@ -286,4 +286,32 @@ structure TotpAuthExt where
   validate : Str → Int → Bool × Option Err
   upgradeResult : Str → Nat → Str × Option Err
 
+/-! ### cmd/keymasterd `idpOpenIDCTokenHandler`: the release decision -/
+
+/-- the fields of `keymasterdCodeToken` (a verified authorization code) the decision reads -/
+structure keymasterdCodeToken where
+  Subject : Str
+  Expiration : Int
+  RedirectURI : Str
+  «Type» : Str
+deriving DecidableEq, Repr
+
+inductive TokenEffect
+  | fail (status : Nat)
+  /-- the handler got past every refusal: ID token and access token are minted and returned -/
+  | release
+deriving DecidableEq, Repr
+
+structure TokenExt where
+  /-- `r.BasicAuth()` -/
+  basicAuth : Str × Str × Bool
+  /-- `url.QueryUnescape` -/
+  unescape : Str → Str × Option Err
+  /-- `idpOpenIDCGetClientConfig(clientID)` (translated itself: `c13_go_getClient`) -/
+  getClient : Str → OpenIDConnectClientConfig × Option Err
+  isNotFound : Option Err → Bool
+  /-- `idpOpenIDCValidCodeVerifier(clientID, verifier, code)`: opens the sealed PKCE data of the code and applies the
+  method switch (`c12_go_method_check`) -/
+  validVerifier : Str → Str → keymasterdCodeToken → Bool
+
 end KM.GoTypes
